@@ -966,6 +966,18 @@ def run_pts(case: dict) -> dict:
                 amount = fl(p["L"]) * fr.s
                 sh = cb.ExtrudedShape(s1, amount)
                 out["req"] = f"c11.extr {cls} {r3(c)} {r3(rp)} {r3(u)} {R(h)} {R(s1.core_ratio)} {R(s1.diagonal_ratio)} {R(amount)}"
+                # the same sketch revolved about an axis in its plane, beyond the rim, towards its normal (sweep < pi):
+                # compared with the model of RevolvedShape (request c11.rev), same case, no new input
+                ax = fr.V(1, 0, 0)
+                org = fr.P(0, -(fl(p["r"]) + fl(p["D"])), 0)
+                ang = min(max(fl(p["L"]), 0.2), 3.0)
+                s2 = getattr(d, cls)(c, rp, n)
+                rv = cb.RevolvedShape(s2, ang, ax, org)
+                out["req2"] = (
+                    f"c11.rev {cls} {r3(c)} {r3(rp)} {r3(u)} {R(h)} {R(s2.core_ratio)} {R(s2.diagonal_ratio)} "
+                    f"{r3(f.unit_vector(ax))} {r3(org)} {R(math.cos(ang))} {R(math.sin(ang))}"
+                )
+                out["pts2"] = [_rat3(q) for q in np.concatenate([op.point_array for op in rv.operations])]
             pts = np.concatenate([op.point_array for op in sh.operations])
             out["hexes"] = len(sh.operations)
     except Exception as e:  # a valid placement must be accepted
@@ -1032,6 +1044,10 @@ def pts_compare(case: dict, impl: dict, model: List[str]) -> Optional[str]:
 
     if "build_error" in impl:
         return None
+    if "req2" in impl and len(model) > 1:
+        why = pts_compare(case, {"what": impl["what"] + " revolved", "req": impl["req2"], "pts": impl["pts2"]}, model[1:])
+        if why:
+            return why
     ans = model[0]
     if ans == "bad-op":
         return f"the model rejects a valid request: {impl['req']}"
@@ -1350,11 +1366,12 @@ class C11(core.Check):
                 "c11.cyl FourCoreDisk 0/1,0/1,0/1 0/1,0/1,1/1 1/1,0/1,0/1 0/1 7/10 4/5 9/10",
                 "c11.gridpts 0/1 0/1 1/1 1/1 0 2",
                 "c11.joint 1",
+                "c11.rev FourCoreDisk 0/1,0/1,0/1 1/1,0/1,0/1 0/1,0/1,1/1 7/10 4/5 9/10 2/1,0/1,0/1 0/1,-3/1,0/1 3/5 4/5",
                 "c11.extrg 0/1 0/1 1/1 1/1 0 2 1/1",
                 "c11.extrw 0/1,0/1,0/1 1/1,0/1,0/1 0/1,0/1,1/1 7/10 9/10 1/2 0/1 1/1",
             ]
         if case["kind"] == "Pts":
-            return [impl["req"]] if "req" in impl else []
+            return ([impl["req"]] if "req" in impl else []) + ([impl["req2"]] if "req2" in impl else [])
         if "blocks" not in impl:
             return []
         flat = "[" + ",".join(str(v) for b in impl["blocks"] for v in b) + "]"
